@@ -91,7 +91,9 @@ impl<'a> ScopeInner<'a> {
         designator: Designator,
         ent: EntRef<'a>,
     ) {
-        self.cache.remove(&ent.designator);
+        // The entity becomes visible by the given name and brings its implicit
+        // declarations (e.g. enumeration literals, operators) along by their own names
+        self.cache.clear();
         self.region
             .visibility
             .make_potentially_visible_with_name(visible_pos, designator, ent);
@@ -281,6 +283,13 @@ impl<'a> Scope<'a> {
 
     pub fn add(&self, ent: EntRef<'a>, diagnostics: &mut dyn DiagnosticHandler) {
         self.0.as_ref().borrow_mut().add(ent, diagnostics);
+    }
+
+    /// Forget what has been looked up for the designator.
+    /// Needed for a nested scope, which starts with a copy of the cache of its parent,
+    /// when the designator is declared in the parent after the nested scope was created.
+    pub fn invalidate_cached(&self, designator: &Designator) {
+        self.0.as_ref().borrow_mut().cache.remove(designator);
     }
 
     pub fn make_potentially_visible(&self, visible_pos: Option<&SrcPos>, ent: EntRef<'a>) {
